@@ -44,7 +44,12 @@ RULE = ("worlds of <= 8 specifications (interfaces and class declarations, multi
         "overwrites / unregisters a live key the block resolves to (registry itself or a base registry), and at the "
         "end; in between 6-8 churn steps = lookups around a live key (exact and derived keys, generalised provided, "
         "through sub-registries), one overwrite / unregister / re-register of that key (None/Interface respelled), "
-        "the same lookups again.  Non-trivial = at least two different values and the default were returned; "
+        "the same lookups again; then RE-BASING (60% of the 4+-registry cases are a chain top <- mid <- leaf of depth >= 3 "
+        "whose top is given __bases__ only after the chain exists, plus random __bases__ assignments): lookups of live "
+        "keys on EVERY registry, one assignment, the same lookups; and, in worlds with classes, 1-3 DYNAMIC blocks: "
+        "registrations needing IB at a later position, a lookup that subscribes the earlier-position spec (or the same "
+        "spec twice), the multi-arity lookups, classImplements*(B, IB), the same lookups, classImplementsOnly, again "
+        "(each world step starts a new phase with its own observed world).  Non-trivial = at least two different values and the default were returned; "
         "distinct = (registries, arities registered, number of distinct values returned)")
 TRUSTED_BASE = [
     "harness/translate/walkers.py (fail-closed Python-ast translator of _lookup/_lookupAll/_subscriptions, "
@@ -59,8 +64,8 @@ TRUSTED_BASE = [
 ]
 ASSUMPTIONS = [
     "provided interfaces of registrations and lookups are interfaces (the requested provided spec must be in its own __iro__)",
-    "the specification graph is static during a history (rebasing specifications is C02/C05's subject)",
-    "registry __bases__ are fixed at creation in generated histories (re-basing registries is C06's subject)",
+    "in-place changes of the specification graph are classImplements / classImplementsFirst / classImplementsOnly on "
+    "classes whose declarations are required specifications (general re-basing of specifications is C02/C05's subject)",
 ]
 
 
@@ -187,22 +192,124 @@ def _around(rng, world, ifaces, users, mut, extra):
     return out
 
 
-SHAPES = [(3, 0), (4, 0), (5, 0), (6, 0), (3, 2), (4, 2), (3, 3), (5, 0), (4, 2)]
+SHAPES = [(3, 0), (4, 0), (5, 0), (3, 2), (4, 2), (3, 3), (4, 2), (3, 2), (4, 3)]
+WORLD_STEPS = ("classImplements", "classImplementsFirst", "classImplementsOnly")
+NO_QUERIES = {"register": 9, "unregister": 2, "subscribe": 1.2, "unsubscribe": 0.8, "rebuild": 0,
+              "setregbases": 0, "lookup": 0, "lookup1": 0, "lookupAll": 0, "names": 0, "subscriptions": 0,
+              "registered": 0, "subscribed": 0, "allRegistrations": 0, "allSubscriptions": 0,
+              "queryAdapter": 0, "adapter_hook": 0, "queryMultiAdapter": 0, "subscribers": 0}
+
+
+def _users_of(bases):
+    return _users([["newreg", "", b] for b in bases])
+
+
+def _topology(rng, n_regs, fl):
+    """-> (newreg ops, planned re-basings).  'chain': registry 0 stands alone, 1 <- 2 <- ... is a chain
+    of depth >= 3 whose TOP (1) is given __bases__ = (0,) only after the chain exists."""
+    if n_regs >= 4 and rng.random() < 0.6:
+        bases = [[], []] + [[r - 1] for r in range(2, n_regs)]
+        planned = [["setregbases", 1, [0]]]
+        if rng.random() < 0.5:
+            planned.append(["setregbases", 1, []])
+            planned.append(["setregbases", 2, [1, 0]] if rng.random() < 0.5 else ["setregbases", 1, [0]])
+    else:
+        bases = []
+        for r in range(n_regs):
+            bs = [b for b in range(r) if rng.random() < 0.6][-2:]
+            bs.reverse()
+            bases.append(bs)
+        planned = []
+    return [["newreg", fl, list(b)] for b in bases], planned, bases
+
+
+def _random_rebase(rng, n_regs):
+    r = rng.randrange(1, n_regs)
+    cand = list(range(r))
+    rng.shuffle(cand)
+    return ["setregbases", r, sorted(cand[: rng.choice([0, 1, 1, 2])], reverse=True)]
+
+
+def _everywhere(rng, world, ifaces, net, n_regs, nkeys):
+    """lookups of live keys (exact and one derived spelling) on EVERY registry"""
+    rel = RC.Rel(world)
+    live = [(r, k) for r in range(n_regs) for k in net[r]]
+    out = []
+    for r0, k in rng.sample(live, min(len(live), nkeys)):
+        req, p, nm = list(k[0]), k[1], k[2]
+        lreq = [rng.choice(rel.descendants(x)) for x in req]
+        lp = rng.choice([x for x in rel.ancestors(p) if x in ifaces or x == 0])
+        for rl in range(n_regs):
+            out.append(["lookup", rl, req, p, nm])
+            out.append(["lookup", rl, lreq, lp, nm])
+    return out
+
+
+def _dynamic(rng, track, ifaces, classes, net, bases, n_regs):
+    """An in-place change of a class declaration between repeated multi-arity lookups: registrations that
+    need IB at a LATER position, a lookup that subscribes the lookup object to the spec of an EARLIER
+    position (or the same spec repeated), the multi-arity lookups (answers cached), classImplements*(B, IB),
+    the same lookups again; then the declaration is narrowed again (classImplementsOnly) and once more."""
+    rel = RC.Rel(track)
+    b = rng.choice(classes)
+    cands = [i for i in ifaces if i not in rel.anc[b]]
+    if not cands:
+        return []
+    ib = rng.choice(cands)
+    pool = list(ifaces) + list(classes)
+    sa = rng.choice(pool)
+    x = rng.choice(rel.ancestors(sa))
+    xs = None if (x == 0 and rng.random() < 0.5) else x
+    p = rng.choice(ifaces)
+    pq = rng.choice([y for y in rel.ancestors(p) if y in ifaces or y == 0])
+    nm = rng.choice([0, 0, 1, 2])
+    r0 = rng.randrange(n_regs)
+    users = _users_of(bases)
+    rl = rng.choice(users[r0])
+    ops = []
+    for req in ([xs, ib], [xs, xs, ib], [ib, xs]):
+        m = ["register", r0, list(req), p, nm, _other_value(rng, 0)]
+        _apply(net, m)
+        ops.append(m)
+    first = ["lookup1", rl, sa, pq, nm] if rng.random() < 0.5 else ["lookup", rl, [sa], pq, nm]
+    variant = rng.choice("AABC")
+    if variant == "A":      # an earlier arity-1 lookup saw sa; then sa sits at the earlier position
+        look = [first, ["lookup", rl, [sa, b], pq, nm], ["lookup", rl, [sa, sa, b], pq, nm],
+                ["lookup", rl, [sa, b], p, nm]]
+    elif variant == "B":    # no warm-up: the same spec twice in one lookup
+        look = [["lookup", rl, [sa, sa, b], pq, nm], ["lookup", rl, [sa, b], pq, nm]]
+    else:                   # the changed class at the EARLIER position as well
+        look = [first, ["lookup", rl, [b, sa], pq, nm], ["lookup", rl, [sa, b], pq, nm],
+                ["lookup", rl, [sa, sa, b], pq, nm]]
+    kind_ = rng.choice(["classImplements", "classImplements", "classImplementsFirst", "classImplementsOnly"])
+    ops += look
+    ops.append([kind_, b, ib])
+    sp = track["specs"][b]
+    sp["implements"] = [ib] if kind_ == "classImplementsOnly" else (
+        [ib] + list(sp["implements"]) if kind_ == "classImplementsFirst" else list(sp["implements"]) + [ib])
+    ops += look
+    other = [i for i in ifaces if i != ib and ib not in RC.Rel(track).anc[i]]
+    if other and rng.random() < 0.6:
+        o = rng.choice(other)
+        ops.append(["classImplementsOnly", b, o])
+        sp["implements"] = [o]
+        ops += look
+    return ops
 
 
 def gen_case(rng, big=False):
+    import copy
     ni, nc = rng.choice(SHAPES)
     world, ifaces, classes = RC.gen_world(rng, n_ifaces=ni, n_classes=nc, n_objects=0)
-    n_regs = rng.choice([1, 2, 3, 3, 4, 4])
+    track = copy.deepcopy(world)          # the generator's picture of the (changing) world
+    n_regs = rng.choice([1, 2, 3, 4, 4, 4])
     n_mut = rng.choice([8, 14, 20, 25])
-    muts = RC.gen_history(
-        rng, world, ifaces, classes, n_ops=n_mut, n_regs=n_regs, rebase=False, max_arity=3, targeted=0.8,
-        weights={"register": 9, "unregister": 2, "subscribe": 1.2, "unsubscribe": 0.8, "rebuild": 0,
-                 "setregbases": 0, "lookup": 0, "lookup1": 0, "lookupAll": 0, "names": 0, "subscriptions": 0,
-                 "registered": 0, "subscribed": 0, "allRegistrations": 0, "allSubscriptions": 0,
-                 "queryAdapter": 0, "adapter_hook": 0, "queryMultiAdapter": 0, "subscribers": 0})
-    head, body = muts[:n_regs], muts[n_regs:]
-    users = _users(head)
+    muts = RC.gen_history(rng, world, ifaces, classes, n_ops=n_mut, n_regs=n_regs, rebase=False, max_arity=3,
+                          targeted=0.8, weights=NO_QUERIES)
+    fl = muts[0][1]
+    body = muts[n_regs:]
+    head, planned, bases = _topology(rng, n_regs, fl)
+    users = _users_of(bases)
     cut = (2 * len(body)) // 3
     seen = [(op[2], op[3], op[4]) for op in body[:cut] if op[0] == "register"]
     net = [dict() for _ in range(n_regs)]
@@ -229,27 +336,63 @@ def gen_case(rng, big=False):
         ops.append(m)
         _apply(net, m)
         ops += around
-    # 3. the rest of the history, then the same block a last time
+    # 3. re-basing: lookups of live keys on every registry, ONE __bases__ assignment, the same lookups again
+    if n_regs >= 2:
+        steps = list(planned) + [_random_rebase(rng, n_regs) for _ in range(rng.choice([0, 1, 2]))]
+        for st in steps:
+            every = _everywhere(rng, world, ifaces, net, n_regs, 3)
+            ops += every
+            ops.append(st)
+            bases[st[1]] = list(st[2])
+            ops += every
+        users = _users_of(bases)
+    # 4. the rest of the history, then the same block again
     ops += body[cut:]
+    for op in body[cut:]:
+        _apply(net, op)
     ops += block
+    # 5. in-place changes of class declarations between repeated multi-arity lookups
+    if classes:
+        for _ in range(rng.choice([1, 2, 3])):
+            ops += _dynamic(rng, track, ifaces, classes, net, bases, n_regs)
+        if rng.random() < 0.3:
+            ops += block
     world["ops"] = ops
     return world
 
 
 def generate(run, tier):
     rng = run.rng("gen")
-    n = 120 if tier == "quick" else 700
+    n = 120 if tier == "quick" else 600
     return [gen_case(rng, big=(tier != "quick")) for _ in range(n)]
 
 
 def coq_case(case, obs, mode):
     if "error" in obs:
         raise C.HarnessError("driver error: " + obs["error"])
-    return RC.coq_hist_case(case, obs)
+    chunks, cur = [], []
+    for op in case["ops"]:
+        if op[0] in WORLD_STEPS:
+            chunks.append(cur)
+            cur = []
+        else:
+            cur.append(op)
+    chunks.append(cur)
+    assert len(chunks) == len(obs["phases"])
+    phases = []
+    for ph, ops in zip(obs["phases"], chunks):
+        phases.append("(%s, %s, %s,\n    [%s])" % (
+            RC.c_graph(ph), RC.c_ifaces(ph), RC.c_lnat(ph["changed"]),
+            ";\n     ".join(RC.c_op(op, ph, []) for op in ops)))
+    return "([%s],\n   %s)" % (";\n   ".join(phases), RC.c_answers(obs["answers"]))
+
+
+def _reg_ops(case):
+    return [op for op in case["ops"] if op[0] not in WORLD_STEPS]
 
 
 def _lookup_answers(case, obs):
-    return [a for op, a in zip(case["ops"], obs["answers"]) if op[0] in ("lookup", "lookup1")]
+    return [a for op, a in zip(_reg_ops(case), obs["answers"]) if op[0] in ("lookup", "lookup1")]
 
 
 def classify(case, obs):
@@ -260,13 +403,15 @@ def classify(case, obs):
         return None
     ar = tuple(sorted({len(op[2]) for op in case["ops"] if op[0] == "register"}))
     nreg = sum(1 for op in case["ops"] if op[0] == "newreg")
-    return (nreg, ar, len(hits))
+    return (nreg, ar, len(hits), any(op[0] == "setregbases" for op in case["ops"]),
+            sum(1 for op in case["ops"] if op[0] in WORLD_STEPS))
 
 
 def kind(case, obs):
     nreg = sum(1 for op in case["ops"] if op[0] == "newreg")
     fl = case["ops"][0][1]
-    return "%s/%d registries" % (fl, nreg)
+    return "%s/%d registries%s%s" % (fl, nreg, "/rebased" if any(op[0] == "setregbases" for op in case["ops"]) else "",
+                                     "/dynamic world" if any(op[0] in WORLD_STEPS for op in case["ops"]) else "")
 
 
 def _spec_expr(i, specs):
@@ -304,8 +449,13 @@ def replay_text(case, obs, mode):
     L.append("S = [%s]" % ", ".join(_spec_expr(i, specs) for i in range(len(specs))))
     L.append("def sp(x): return None if x is None else S[x]")
     L.append("R = []")
-    for op, a in zip(case["ops"], obs.get("answers", [])):
+    answers = iter(obs.get("answers", []))
+    for op in case["ops"]:
         k = op[0]
+        if k in WORLD_STEPS:
+            L.append("from zope.interface import %s; %s(C%d, I%d)" % (k, k, op[1], op[2]))
+            continue
+        a = next(answers, None)
         if k == "newreg":
             L.append("R.append(%s(tuple(R[b] for b in %r)))" % (
                 "AdapterRegistry" if op[1] == "push" else "VerifyingAdapterRegistry", op[2]))
@@ -315,6 +465,8 @@ def replay_text(case, obs, mode):
             L.append("R[%d].%s([sp(x) for x in %r], sp(%r), v(%r))" % (op[1], k, op[2], op[3], op[4]))
         elif k == "rebuild":
             L.append("R[%d].rebuild()" % op[1])
+        elif k == "setregbases":
+            L.append("R[%d].__bases__ = tuple(R[b] for b in %r)" % (op[1], op[2]))
         elif k == "lookup" and op[4] != "X":
             L.append("print(R[%d].lookup([S[x] for x in %r], S[%d], nm(%r)))   # observed %r  (0=default, [1, vid])" % (
                 op[1], op[2], op[3], op[4], a))
